@@ -108,6 +108,10 @@ class Inliner(object):
       elif isinstance(x, ast.YieldFrom):
         hit = True           # desugared to a loop (_desugar_yield_from)
         break
+      elif isinstance(x, ast.Call) and isinstance(x.func, ast.Subscript) and isinstance(x.func.value, ast.Name) and \
+          any(isinstance(v, ast.Dict) for v in module.globals.get(x.func.value.id, [])):
+        hit = True
+        break
       elif isinstance(x, ast.Call) and isinstance(x.func, ast.Attribute) and x.func.attr == 'get' and isinstance(x.func.value, ast.Name) and \
           any(isinstance(v, ast.Dict) for v in module.globals.get(x.func.value.id, [])):
         hit = True           # possibly a dispatch table (_expand_dispatch)
@@ -117,6 +121,13 @@ class Inliner(object):
         if names and isinstance(x.test, (ast.Name, ast.UnaryOp, ast.BoolOp)):
           hit = True         # possibly a flag test (see _subst_flags)
           break
+      elif isinstance(x, ast.Assign) and len(x.targets) == 1 and isinstance(x.targets[0], ast.Name) and \
+          isinstance(x.value, (ast.Attribute, ast.Name)):
+        hit = True           # possibly a hoisted look-up (see _unalias_locals)
+        break
+    consts = _module_constants(module)
+    if consts or any(isinstance(d, (ast.FunctionDef, ast.AsyncFunctionDef)) and (d.args.defaults or d.args.kw_defaults) for d in ast.walk(module.tree)):
+      hit = True
     if not hit:
       return None
     tree = copy.deepcopy(module.tree)
@@ -125,6 +136,10 @@ class Inliner(object):
         del x._parent
     self._module = module
     changed = [False]
+    if _inline_constants(tree, consts, self._program_facts()):
+      changed[0] = True
+    if _bind_unpassed_defaults(tree, self._call_shapes()):
+      changed[0] = True
 
     def visit(stmts):
       for s in stmts:
@@ -217,6 +232,8 @@ class Inliner(object):
     try:
       if _desugar_yield_from(node, only_non_calls=True):
         inlined.append('<flag>')
+      if self._unalias_locals(node):
+        inlined.append('<flag>')
       node.body = self._delegations(node.body, fi, [fi.key], inlined, True)
       node.body = self._block(node.body, fi, [fi.key], inlined, 0)
       # calls that came in with a spliced body and whose receiver is a name of this function (self.helper2(...) inside
@@ -239,6 +256,372 @@ class Inliner(object):
       node._normalised = True
       _check_bound(node, fi)
     return bool(inlined) or bool(getattr(node, '_nested_changed', False))
+
+  def _unalias_bound_methods(self, node):
+    """`send = self.sendLine; for ...: send(x)` - a bound method looked up once and kept in a local (a common micro-optimisation).
+    When the local is assigned exactly once, at the top level of the function body, from `self.<attr>`, `self` is never rebound
+    and no code of the program stores to an attribute of that name, the local IS `self.<attr>`: its reads are replaced and the
+    assignment disappears, so that rules (and the splicer) see the method call."""
+    args = node.args.posonlyargs + node.args.args
+    if not args:
+      return False
+    me = args[0].arg
+    stores = {}
+    for x in ast.walk(node):
+      if isinstance(x, ast.Name) and isinstance(x.ctx, (ast.Store, ast.Del)):
+        stores[x.id] = stores.get(x.id, 0) + 1
+      elif isinstance(x, (ast.Global, ast.Nonlocal)):
+        for n in x.names:
+          stores[n] = stores.get(n, 0) + 2
+      elif isinstance(x, ast.arg) and x is not args[0]:
+        stores[x.arg] = stores.get(x.arg, 0) + 1
+    if stores.get(me):
+      return False
+    stored_attrs = getattr(self, '_stored_attrs', None)
+    if stored_attrs is None:
+      stored_attrs = set()
+      for m in self.repo.modules.values():
+        for x in ast.walk(m.tree):
+          if isinstance(x, ast.Attribute) and isinstance(x.ctx, (ast.Store, ast.Del)):
+            stored_attrs.add(x.attr)
+          elif isinstance(x, ast.Call) and isinstance(x.func, ast.Name) and x.func.id in ('setattr', 'delattr') and len(x.args) >= 2:
+            stored_attrs |= _setattr_names(x, m)
+      self._stored_attrs = stored_attrs
+    if '*' in stored_attrs:
+      return False
+    changed = False
+    for st in list(node.body):
+      if not (isinstance(st, ast.Assign) and len(st.targets) == 1 and isinstance(st.targets[0], ast.Name) and
+              isinstance(st.value, ast.Attribute) and isinstance(st.value.value, ast.Name) and st.value.value.id == me):
+        continue
+      local, attr = st.targets[0].id, st.value.attr
+      if stores.get(local) != 1 or attr in stored_attrs:
+        continue
+      # every read is after the assignment: the assignment is a top-level statement, reads before it would be UnboundLocalError
+      first = min([x.lineno for x in ast.walk(node) if isinstance(x, ast.Name) and x.id == local and x is not st.targets[0]] or [0])
+      if first and first < st.lineno:
+        continue
+      for x in ast.walk(node):
+        for field, val in ast.iter_fields(x):
+          if isinstance(val, ast.Name) and val.id == local and isinstance(val.ctx, ast.Load):
+            setattr(x, field, ast.copy_location(ast.Attribute(value=ast.Name(id=me, ctx=ast.Load()), attr=attr, ctx=ast.Load()), val))
+          elif isinstance(val, list):
+            for i, v in enumerate(val):
+              if isinstance(v, ast.Name) and v.id == local and isinstance(v.ctx, ast.Load):
+                val[i] = ast.copy_location(ast.Attribute(value=ast.Name(id=me, ctx=ast.Load()), attr=attr, ctx=ast.Load()), v)
+      node.body.remove(st)
+      changed = True
+    if changed:
+      ast.fix_missing_locations(node)
+    return changed
+
+  # ------------------------------------------------------------------ hoisted look-ups (the inverse of a "performance pass")
+  def _program_facts(self):
+    """(names of properties, {function name: (attributes it stores, names it calls)}) over the whole program."""
+    facts = getattr(self, '_facts', None)
+    if facts is None:
+      props, by_name = set(), {}
+      for m in self.repo.modules.values():
+        for d in ast.walk(m.tree):
+          if isinstance(d, (ast.FunctionDef, ast.AsyncFunctionDef)):
+            if any((isinstance(x, ast.Name) and x.id in ('property', 'cached_property')) or
+                   (isinstance(x, ast.Attribute) and x.attr in ('setter', 'getter', 'cached_property')) for x in d.decorator_list):
+              props.add(d.name)
+            st, calls = by_name.setdefault(d.name, (set(), set()))
+            for x in ast.walk(d):
+              if isinstance(x, ast.Attribute) and isinstance(x.ctx, (ast.Store, ast.Del)):
+                st.add(x.attr)
+              elif isinstance(x, ast.Call):
+                if isinstance(x.func, ast.Name) and x.func.id in ('setattr', 'delattr') and len(x.args) >= 2:
+                  st |= _setattr_names(x, m)
+                f = x.func
+                calls.add(f.attr if isinstance(f, ast.Attribute) else (f.id if isinstance(f, ast.Name) else ''))
+          elif isinstance(d, ast.ClassDef):
+            # instantiating a class runs its __init__
+            by_name.setdefault(d.name, (set(), set()))[1].add('__init__')
+      facts = self._facts = (props, by_name, {})
+    return facts
+
+  _CONTAINER_METHODS = {'append', 'appendleft', 'pop', 'popleft', 'add', 'get', 'extend', 'insert', 'remove', 'discard', 'items', 'keys',
+                        'values', 'update', 'clear', 'join', 'split', 'strip', 'startswith', 'endswith', 'format', 'encode', 'decode',
+                        'search', 'match', 'sub', 'write', 'setdefault', 'index', 'count', 'sort', 'partition', 'replace', 'group'}
+
+  def _all_stored_attrs(self):
+    out = set()
+    for m in self.repo.modules.values():
+      for x in ast.walk(m.tree):
+        if isinstance(x, ast.Attribute) and isinstance(x.ctx, (ast.Store, ast.Del)):
+          out.add(x.attr)
+    self._stored_attrs_all = out
+    return out
+
+  def _stable_chain(self, base, attrs, params, stores, call_only=False):
+    """the attribute chain base.a1.a2... names something the PROGRAM defines and does not rebind while it runs - a method, a field
+    set in constructors only, a function of an imported module, a method of a built-in container held in a local.  An attribute of
+    an object the program does not own (`reactor.running`, a transport's state) can change under the function: reading it once and
+    reading it at every use are then different programs, and rules about WHEN it is read must see which one is written."""
+    props, by_name, _ = self._program_facts()
+    soi = self._stored_outside_init()
+    init_fields = getattr(self, '_init_fields', None)
+    if init_fields is None:
+      init_fields = set()
+      for m in self.repo.modules.values():
+        for d in ast.walk(m.tree):
+          if isinstance(d, ast.FunctionDef) and d.name == '__init__':
+            init_fields |= {x.attr for x in ast.walk(d) if isinstance(x, ast.Attribute) and isinstance(x.ctx, ast.Store)}
+          elif isinstance(d, ast.ClassDef):
+            init_fields |= {t.id for st in d.body if isinstance(st, ast.Assign) for t in st.targets if isinstance(t, ast.Name)}
+      self._init_fields = init_fields
+    mod = self._module
+    imports = {}
+    for st in mod.tree.body:
+      if isinstance(st, ast.Import):
+        for al in st.names:
+          imports[(al.asname or al.name).split('.')[0]] = ('module', al.name)
+      elif isinstance(st, ast.ImportFrom):
+        for al in st.names:
+          imports[al.asname or al.name] = ('from', '%s.%s' % (st.module, al.name))
+
+    def member_ok(a):
+      return a not in props and a not in soi and (a in by_name or a in init_fields)
+    first = attrs[0]
+    if base in ('self', 'cls'):
+      ok = member_ok(first)
+      if not ok and len(attrs) == 1 and first not in props and first not in soi and first not in by_name and first not in init_fields and \
+         first not in getattr(self, '_stored_attrs_all', self._all_stored_attrs()) and call_only:
+        ok = True        # a method inherited from a library base class (self.sendLine), only ever called through the local
+    elif base in imports and base not in stores and base not in params:
+      kind, target = imports[base]
+      pm = self.repo.modules_by_name.get(target) if hasattr(self.repo, 'modules_by_name') else None
+      if pm is None:
+        for m in self.repo.modules.values():
+          if getattr(m, 'name', None) == target:
+            pm = m
+      if pm is not None:
+        ok = any(isinstance(st, (ast.FunctionDef, ast.ClassDef)) and st.name == first for st in pm.tree.body)
+      elif kind == 'module':
+        ok = True                       # a function of a library module (time.time, os.path.join)
+      else:
+        ok = target.endswith('.settings') and first not in soi and first.isupper()
+    elif base == 'settings':
+      ok = first not in soi and first.isupper()
+    elif base in params or base in stores:
+      ok = first in self._CONTAINER_METHODS or (first in by_name and first not in props and first not in soi)
+    else:
+      ok = first in by_name and first not in props and first not in soi      # a module-level object of the program
+    return ok and all(member_ok(a) or a in self._CONTAINER_METHODS for a in attrs[1:])
+
+  def _call_shapes(self):
+    """{callee name: [(number of positional arguments, keyword names, has */** argument)]} for every call in the program, and the
+    names that are referenced without being called (handed to LoopingCall / addCallback / partial ...: how they are then called is
+    not visible, except that Twisted's LoopingCall and carbon's own Event call with the arguments they were given)."""
+    shapes = getattr(self, '_shapes', None)
+    if shapes is None:
+      shapes = {}
+      for m in self.repo.modules.values():
+        for c in ast.walk(m.tree):
+          if isinstance(c, ast.Call):
+            f = c.func
+            name = f.attr if isinstance(f, ast.Attribute) else (f.id if isinstance(f, ast.Name) else None)
+            star = any(isinstance(a, ast.Starred) for a in c.args) or any(k.arg is None for k in c.keywords)
+            kws = {k.arg for k in c.keywords if k.arg}
+            if name:
+              shapes.setdefault(name, []).append((len(c.args), kws, star))
+            if name in ('partial', 'LoopingCall', 'callLater', 'callInThread', 'callFromThread', 'deferToThread', 'addCallback',
+                        'addCallbacks', 'addErrback', 'addBoth') and c.args:
+              # f handed over together with arguments: they are passed on to it
+              for i, a in enumerate(c.args):
+                an = a.attr if isinstance(a, ast.Attribute) else (a.id if isinstance(a, ast.Name) else None)
+                if an:
+                  shapes.setdefault(an, []).append((len(c.args) - i - 1, kws, star))
+      self._shapes = shapes
+    return shapes
+
+  def _stored_outside_init(self):
+    """attribute names (and constant keys of `settings[...]`) that some function other than an __init__ stores: a look-up of one
+    of these can change under a running function - through a callee, an event handler, or another thread (the shutdown trigger
+    zeroes settings.MIN_TIMESTAMP_LAG while the strategy generators are suspended at a yield)."""
+    out = getattr(self, '_soi', None)
+    if out is None:
+      out = set()
+      for m in self.repo.modules.values():
+        for d in ast.walk(m.tree):
+          if isinstance(d, (ast.FunctionDef, ast.AsyncFunctionDef, ast.Lambda)) and getattr(d, 'name', '') != '__init__':
+            for x in ast.walk(d):
+              if isinstance(x, ast.Attribute) and isinstance(x.ctx, (ast.Store, ast.Del)):
+                out.add(x.attr)
+              elif isinstance(x, ast.Subscript) and isinstance(x.ctx, (ast.Store, ast.Del)) and isinstance(x.slice, ast.Constant) and \
+                  isinstance(x.slice.value, str):
+                out.add(x.slice.value)
+              elif isinstance(x, ast.Call) and isinstance(x.func, ast.Name) and x.func.id in ('setattr', 'delattr') and len(x.args) >= 2:
+                out |= _setattr_names(x, m)
+              elif isinstance(x, ast.Call) and isinstance(x.func, ast.Attribute) and x.func.attr in ('update', 'setdefault', 'readFrom', 'pop'):
+                if x.func.attr == 'setdefault' and x.args and isinstance(x.args[0], ast.Constant) and isinstance(x.args[0].value, str):
+                  out.add(x.args[0].value)
+      self._soi = out
+    return out
+
+  def _may_store(self, names):
+    """attributes that may be stored by functions with one of these names, or by anything they call (by name, transitively)."""
+    props, by_name, memo = self._program_facts()
+    out, todo, seen = set(), list(names), set()
+    while todo:
+      n = todo.pop()
+      if n in seen or n not in by_name:
+        continue
+      seen.add(n)
+      st, calls = by_name[n]
+      out |= st
+      todo.extend(calls)
+    return out
+
+  def _unalias_locals(self, node):
+    """`pop = names.pop` / `deliver = self.metricReceived` / `increment = instrumentation.increment` / `to_float = float`
+    ... used afterwards in place of the look-up (hoisting a look-up out of a loop).  When
+      - the local is bound by exactly one plain assignment and only read in the statements that follow it in the same block,
+      - the right-hand side is a bare chain of attribute reads (or a global / builtin name) - no call, no subscript,
+      - the base name is a parameter, a global, or a local (re)bound only by earlier statements of that block,
+      - no attribute of the chain is a property, is stored by this function, or may be stored by anything it calls,
+    the local IS the look-up: its reads are replaced and the assignment disappears.  Rules then see the code as it was
+    before the look-up was hoisted.  (A read of a property, or of a field something in between may rebind, is not touched:
+    there the hoisted value can be stale, and rules about freshness must see that.)"""
+    _split_parallel_assignments(node)
+    changed = False
+    for inner in walk_no_nested(node, include_self=False):
+      pass
+    for inner in ast.walk(node):
+      if inner is not node and isinstance(inner, (ast.FunctionDef, ast.AsyncFunctionDef)) and not getattr(inner, '_unaliased', False):
+        inner._unaliased = True
+        if self._unalias_locals(inner):
+          changed = True
+    a = node.args
+    params = {x.arg for x in a.posonlyargs + a.args + a.kwonlyargs} | ({a.vararg.arg} if a.vararg else set()) | ({a.kwarg.arg} if a.kwarg else set())
+    sig = set(params)
+    params -= getattr(node, '_bound_params', set())        # an optional parameter nobody passes, bound to its default: a local
+    props = self._program_facts()[0]
+    for _round in range(12):
+      stores, loads, scoped = {}, {}, set()
+      for x in ast.walk(node):
+        if isinstance(x, ast.Name):
+          (stores if isinstance(x.ctx, (ast.Store, ast.Del)) else loads).setdefault(x.id, []).append(x)
+        elif isinstance(x, (ast.Global, ast.Nonlocal)):
+          scoped |= set(x.names)
+        elif isinstance(x, ast.arg) and x.arg not in sig:
+          stores.setdefault(x.arg, []).append(x)
+        elif isinstance(x, ast.ExceptHandler) and x.name:
+          stores.setdefault(x.name, []).append(x)
+      called = set()
+      own_stored = set()
+      for x in ast.walk(node):
+        if isinstance(x, ast.Call):
+          f = x.func
+          called.add(f.attr if isinstance(f, ast.Attribute) else (f.id if isinstance(f, ast.Name) else ''))
+          if isinstance(f, ast.Name) and f.id in ('setattr', 'delattr'):
+            own_stored.add('*')
+        elif isinstance(x, ast.Attribute) and isinstance(x.ctx, (ast.Store, ast.Del)):
+          own_stored.add(x.attr)
+      may = None
+      done = False
+      for owner in ast.walk(node):
+        for field in ('body', 'orelse', 'finalbody'):
+          blk = getattr(owner, field, None)
+          if not isinstance(blk, list) or isinstance(owner, ast.ClassDef) or (isinstance(owner, (ast.FunctionDef, ast.AsyncFunctionDef, ast.Lambda)) and owner is not node):
+            continue
+          for i, st in enumerate(blk):
+            if not (isinstance(st, ast.Assign) and len(st.targets) == 1 and isinstance(st.targets[0], ast.Name)):
+              continue
+            x = st.targets[0].id
+            e = st.value
+            chain = []
+            while isinstance(e, ast.Attribute):
+              chain.append(e.attr)
+              e = e.value
+            if not isinstance(e, ast.Name) or x in params or x in scoped or len(stores.get(x, [])) != 1:
+              continue
+            base = e.id
+            if base == x or base in scoped:
+              continue
+            if not chain and (base in params or base in stores):
+              continue                     # a plain copy of a local: the copy coalescer's business
+            if '*' in own_stored or any(c in props or c in own_stored or (c.startswith('__') and c.endswith('__')) for c in chain):
+              continue
+            # reads of x: all of them in the statements that follow in this block
+            after = [y for s_ in blk[i + 1:] for y in ast.walk(s_) if isinstance(y, ast.Name) and y.id == x and isinstance(y.ctx, ast.Load)]
+            if len(after) != len(loads.get(x, [])) or not after:
+              continue
+            # a value that steers control flow (`diverse = self.diverse_replicas ... if diverse: ... if diverse and n >= k:`) stays a
+            # local: read once, every test sees the same value, and path feasibility can pair the tests up
+            # (only in a generator: between two yields anything can happen, so "read once" matters; and only where the local is
+            # tested for its truth - a comparison operand such as `size < low_watermark` is an ordinary value)
+            def truth_positions(t):
+              if isinstance(t, ast.Name):
+                return [t]
+              if isinstance(t, ast.UnaryOp) and isinstance(t.op, ast.Not):
+                return truth_positions(t.operand)
+              if isinstance(t, ast.BoolOp):
+                return [y for v_ in t.values for y in truth_positions(v_)]
+              return []
+            is_gen = any(isinstance(y, (ast.Yield, ast.YieldFrom)) for y in walk_no_nested(node, include_self=False))
+            tests = [y for t_ in ast.walk(node) if isinstance(t_, (ast.If, ast.While, ast.IfExp, ast.Assert))
+                     for y in truth_positions(t_.test) if y.id == x] if is_gen else []
+            if tests:
+              continue
+            # a read inside a nested def / lambda: closures are spliced from the program model, not from this tree - leave it
+            nested_reads = {id(y) for s_ in blk[i + 1:] for inner in ast.walk(s_) if isinstance(inner, (ast.FunctionDef, ast.AsyncFunctionDef, ast.Lambda))
+                            for y in ast.walk(inner) if isinstance(y, ast.Name) and y.id == x}
+            if nested_reads:
+              continue
+            # the block is not re-entered with x still bound from a previous iteration and read before this statement: covered by
+            # "all reads follow in this block".  The base: parameter / global / local bound by earlier statements of this block only
+            if base in stores:
+              if base in params:
+                continue
+              # every (re)binding of the base comes before this statement in the text: whichever ran last ran before the look-up
+              # was taken, in this iteration too, and nothing rebinds the base between the look-up and its uses
+              here = (st.lineno, st.col_offset)
+              if any((getattr(y, 'lineno', 10 ** 9), getattr(y, 'col_offset', 0)) >= here for y in stores[base]):
+                continue
+            call_only = False
+            if chain:
+              funcs = {id(c.func) for s_ in blk[i + 1:] for c in ast.walk(s_) if isinstance(c, ast.Call)}
+              reads = [y for s_ in blk[i + 1:] for y in ast.walk(s_) if isinstance(y, ast.Name) and y.id == x and isinstance(y.ctx, ast.Load)]
+              call_only = bool(reads) and all(id(y) in funcs for y in reads)
+            if chain and not self._stable_chain(base, list(reversed(chain)), params, stores, call_only):
+              continue
+            if chain:
+              if may is None:
+                may_callees = self._may_store(called)
+                may = may_callees | self._stored_outside_init()
+              # fields of `self` in the reactor-only modules: what can rebind them under this function is what it calls (the
+              # cache and the writer are shared with the writer thread, and the cache strategies are suspended generators)
+              relaxed = base == 'self' and getattr(self._module, 'name', '') not in ('carbon.cache', 'carbon.writer')
+              if '*' in may or any(c in (may_callees if relaxed else may) for c in chain):
+                continue
+            for y in after:
+              par = getattr(y, '_parent', None)
+            value = st.value
+            for z in ast.walk(node):
+              for fld, val in ast.iter_fields(z):
+                if isinstance(val, ast.Name) and val.id == x and isinstance(val.ctx, ast.Load):
+                  setattr(z, fld, ast.copy_location(_clone(value), val))
+                elif isinstance(val, list):
+                  for k, v in enumerate(val):
+                    if isinstance(v, ast.Name) and v.id == x and isinstance(v.ctx, ast.Load):
+                      val[k] = ast.copy_location(_clone(value), v)
+            blk.remove(st)
+            if not blk:
+              blk.append(ast.copy_location(ast.Pass(), st))
+            changed = done = True
+            break
+          if done:
+            break
+        if done:
+          break
+      if not done:
+        break
+    if changed:
+      ast.fix_missing_locations(node)
+    return changed
 
   def _fi_of(self, node):
     ref = getattr(node, '_fi', None)
@@ -1619,6 +2002,320 @@ def _truth_position(root, name_node):
 _FORM_K = [0]
 
 
+_PURE_CALLS = {'float', 'int', 'itemgetter', 'operator.itemgetter', 'attrgetter', 'operator.attrgetter', 'methodcaller',
+               'operator.methodcaller', 'frozenset', 'tuple'}
+_BUILTIN_FUNCS = {'float', 'int', 'str', 'len', 'list', 'tuple', 'dict', 'set', 'sorted', 'min', 'max', 'sum', 'isinstance', 'repr',
+                  'bytes', 'bool', 'abs', 'round', 'range', 'enumerate', 'zip', 'map', 'filter', 'any', 'all', 'iter', 'next', 'getattr'}
+
+
+def _pure_constant(v, known, depth=0):
+  """an expression whose value is fixed at import time and has no identity anybody relies on: literals, arithmetic and
+  comparisons on them (and on sys.version_info), float('inf'), itemgetter(k) ..., names of builtins, references to functions /
+  classes / their attributes (`TaggedSeries.encode`), other such constants."""
+  if depth > 6:
+    return False
+  if isinstance(v, ast.Constant):
+    return v.value is not None and v.value is not Ellipsis
+  if isinstance(v, ast.Tuple):
+    return all(_pure_constant(e, known, depth + 1) for e in v.elts)
+  if isinstance(v, ast.UnaryOp):
+    return _pure_constant(v.operand, known, depth + 1)
+  if isinstance(v, ast.BinOp):
+    return _pure_constant(v.left, known, depth + 1) and _pure_constant(v.right, known, depth + 1)
+  if isinstance(v, ast.Compare):
+    return all(_pure_constant(e, known, depth + 1) for e in [v.left] + list(v.comparators))
+  if isinstance(v, ast.Call):
+    d = _dotted(v.func)
+    return d in _PURE_CALLS and not v.keywords and all(_pure_constant(e, known, depth + 1) for e in v.args)
+  if isinstance(v, ast.Name):
+    return v.id in _BUILTIN_FUNCS or v.id in known
+  if isinstance(v, ast.Attribute):
+    d = _dotted(v)
+    if d is None:
+      return False
+    base = d.split('.')[0]
+    # a function / class of this module, or an imported class (CamelCase): `TaggedSeries.encode`, `list.append` - never `settings.X`
+    if base == 're' and d.count('.') == 1 and d.split('.')[1].isupper():
+      return True            # re.I, re.IGNORECASE ...
+    return d == 'sys.version_info' or (base in known.get('__defs__', ()) and (base in known.get('__own__', ()) or base[:1].isupper())) or \
+        base in ('list', 'dict', 'set', 'str', 'tuple', 'deque')
+  return False
+
+
+def _dotted(e):
+  parts = []
+  while isinstance(e, ast.Attribute):
+    parts.append(e.attr)
+    e = e.value
+  if isinstance(e, ast.Name):
+    parts.append(e.id)
+    return '.'.join(reversed(parts))
+  return None
+
+
+def _module_constants(module):
+  """{name: value ast} of module-level names bound exactly once, at module level, to a pure constant (see _pure_constant), never
+  declared `global` in a function, spelled as a constant (_private or ALL_CAPS)."""
+  import re
+  cached = getattr(module, '_sa_constants', None)
+  if cached is not None:
+    return cached
+  tree = module.tree
+  declared = {n for x in ast.walk(tree) if isinstance(x, ast.Global) for n in x.names}
+  defs = {st.name for st in tree.body if isinstance(st, (ast.FunctionDef, ast.ClassDef))}
+  for st in tree.body:
+    if isinstance(st, (ast.Import, ast.ImportFrom)):
+      defs |= {(al.asname or al.name).split('.')[0] for al in st.names}
+  counts = {}
+  for x in ast.walk(tree):
+    if isinstance(x, ast.Name) and isinstance(x.ctx, (ast.Store, ast.Del)):
+      counts[x.id] = counts.get(x.id, 0) + 1
+  out = {'__defs__': defs, '__own__': {st.name for st in tree.body if isinstance(st, (ast.FunctionDef, ast.ClassDef))}}
+  for name in defs:
+    out.setdefault(name, None)
+  for _ in range(3):
+    for st in tree.body:
+      if isinstance(st, ast.Assign) and len(st.targets) == 1 and isinstance(st.targets[0], ast.Name):
+        n = st.targets[0].id
+        if n in declared or counts.get(n) != 1 or len(n) < 2 or not re.match(r'^_[A-Za-z0-9_]*$|^[A-Z][A-Z0-9_]*$', n) or n.startswith('__'):
+          continue
+        if out.get(n) is None and _pure_constant(st.value, out):
+          out[n] = st.value
+  res = {k: v for k, v in out.items() if v is not None and k not in ('__defs__', '__own__')}
+  try:
+    module._sa_constants = res
+  except Exception:
+    pass
+  return res
+
+
+def _inline_constants(tree, consts, facts):
+  """replace the reads of module-level constants inside functions by their value (the binding itself stays).  Class-level constants
+  (`MAX_QUOTED = 400` in a class body, never assigned through an attribute anywhere in the program, not redefined by a class of
+  this module) are replaced where they are read as self.X / cls.X / ClassName.X in this module."""
+  changed = False
+  props, by_name, _ = facts
+  stored_anywhere = set()
+  for st, _calls in by_name.values():
+    stored_anywhere |= st
+
+  def subst(scope, table, shadow):
+    nonlocal changed
+    for z in ast.walk(scope):
+      for fld, val in ast.iter_fields(z):
+        if isinstance(val, ast.Name) and isinstance(val.ctx, ast.Load) and val.id in table and val.id not in shadow:
+          setattr(z, fld, ast.copy_location(_clone(table[val.id]), val))
+          changed = True
+        elif isinstance(val, list):
+          for k, v in enumerate(val):
+            if isinstance(v, ast.Name) and isinstance(v.ctx, ast.Load) and v.id in table and v.id not in shadow:
+              val[k] = ast.copy_location(_clone(table[v.id]), v)
+              changed = True
+  if consts:
+    for d in ast.walk(tree):
+      if isinstance(d, (ast.FunctionDef, ast.AsyncFunctionDef)):
+        shadow = _locals_of(d)
+        for inner in ast.walk(d):
+          if inner is not d and isinstance(inner, (ast.FunctionDef, ast.AsyncFunctionDef, ast.Lambda)):
+            a = inner.args
+            shadow |= {x.arg for x in a.posonlyargs + a.args + a.kwonlyargs}
+        subst(d, consts, shadow)
+    for st in tree.body:
+      # module-level statements (handler registrations with lambdas, derived constants)
+      if not isinstance(st, (ast.FunctionDef, ast.AsyncFunctionDef, ast.ClassDef, ast.Import, ast.ImportFrom)):
+        shadow = set()
+        for inner in ast.walk(st):
+          if isinstance(inner, ast.Lambda):
+            a = inner.args
+            shadow |= {x.arg for x in a.posonlyargs + a.args + a.kwonlyargs}
+        subst(st, consts, shadow)
+  # class-level constants
+  classes = [c for c in ast.walk(tree) if isinstance(c, ast.ClassDef)]
+  for c in classes:
+    table = {}
+    for st in c.body:
+      if isinstance(st, ast.Assign) and len(st.targets) == 1 and isinstance(st.targets[0], ast.Name):
+        n = st.targets[0].id
+        if n in stored_anywhere or n in props or n.startswith('__') or not _pure_constant(st.value, {'__defs__': set()}):
+          continue
+        if not isinstance(st.value, (ast.Constant, ast.BinOp, ast.UnaryOp)):
+          continue
+        if sum(1 for c2 in classes for s2 in c2.body if isinstance(s2, ast.Assign) and
+               any(isinstance(t, ast.Name) and t.id == n for t in s2.targets)) != 1:
+          continue
+        table[n] = st.value
+    if not table:
+      continue
+    for z in ast.walk(tree):
+      for fld, val in ast.iter_fields(z):
+        vals = val if isinstance(val, list) else [val]
+        for k, v in enumerate(vals):
+          if isinstance(v, ast.Attribute) and isinstance(v.ctx, ast.Load) and v.attr in table and isinstance(v.value, ast.Name) and \
+             (v.value.id == c.name or (v.value.id in ('self', 'cls') and any(v is y for m in c.body for y in ast.walk(m)))):
+            new = ast.copy_location(_clone(table[v.attr]), v)
+            if isinstance(val, list):
+              val[k] = new
+            else:
+              setattr(z, fld, new)
+            changed = True
+  if changed:
+    ast.fix_missing_locations(tree)
+  return changed
+
+
+def _bind_unpassed_defaults(tree, shapes):
+  """an optional parameter no call of the program ever passes (a `cache=None`, `limit=None`, `now=None`, `pattern_flags=re.I`
+  added for tests or extensibility) always has its default inside the program:
+     def f(..., p=None): if p is None: p = E      ->   p = E           (the guard is decided)
+     def f(..., p=K):    ... p ...                ->   ... K ...       (K a literal / folded constant, p never assigned)
+  Calls are matched by the callee's name (any function or method of that name counts, as do functions handed to
+  LoopingCall / partial / addCallback with arguments), so a parameter is only bound when nothing that could reach the function
+  passes it."""
+  changed = False
+  for d in ast.walk(tree):
+    if not isinstance(d, (ast.FunctionDef, ast.AsyncFunctionDef)) or d.name.startswith('__'):
+      continue
+    a = d.args
+    pos = a.posonlyargs + a.args
+    cand = []
+    for i, default in enumerate(a.defaults):
+      idx = len(pos) - len(a.defaults) + i
+      cand.append((pos[idx].arg, idx, default))
+    for arg, default in zip(a.kwonlyargs, a.kw_defaults):
+      if default is not None:
+        cand.append((arg.arg, None, default))
+    if not cand:
+      continue
+    calls = shapes.get(d.name, [])
+    is_method = bool(pos) and pos[0].arg in ('self', 'cls')
+    for name, idx, default in cand:
+      passed = False
+      for npos, kws, star in calls:
+        if star or name in kws:
+          passed = True
+          break
+        if idx is not None:
+          # positional index as seen by the caller: without the receiver for a method called through an attribute; a plain
+          # function call f(self, ...) counts it - take the smaller (more cautious) index
+          eff = idx - 1 if is_method else idx
+          if npos > eff:
+            passed = True
+            break
+      if passed:
+        continue
+      stores = [x for x in ast.walk(d) if isinstance(x, ast.Name) and x.id == name and isinstance(x.ctx, (ast.Store, ast.Del))]
+      loads = [x for x in ast.walk(d) if isinstance(x, ast.Name) and x.id == name and isinstance(x.ctx, ast.Load)]
+      if any(isinstance(x, (ast.Global, ast.Nonlocal)) and name in x.names for x in ast.walk(d)):
+        continue
+      if isinstance(default, ast.Constant) and default.value is None:
+        # `if p is None: p = E` as a top-level statement, before any other mention of p
+        done = False
+        for i, st in enumerate(d.body):
+          mentions = any(isinstance(x, ast.Name) and x.id == name for x in ast.walk(st))
+          if not mentions:
+            continue
+          if isinstance(st, ast.If) and not st.orelse and isinstance(st.test, ast.Compare) and len(st.test.ops) == 1 and \
+             isinstance(st.test.ops[0], ast.Is) and isinstance(st.test.left, ast.Name) and st.test.left.id == name and \
+             isinstance(st.test.comparators[0], ast.Constant) and st.test.comparators[0].value is None and \
+             len(st.body) == 1 and isinstance(st.body[0], ast.Assign) and len(st.body[0].targets) == 1 and \
+             isinstance(st.body[0].targets[0], ast.Name) and st.body[0].targets[0].id == name and \
+             not any(isinstance(x, ast.Name) and x.id == name for x in ast.walk(st.body[0].value)):
+            d.body[i] = st.body[0]
+            changed = done = True
+            d._bound_params = getattr(d, '_bound_params', set()) | {name}
+          elif isinstance(st, ast.Assign) and len(st.targets) == 1 and isinstance(st.targets[0], ast.Name) and st.targets[0].id == name:
+            v = st.value
+            # p = E if p is None else p      /      p = p or E   (E is then never falsy-sensitive: p is None)
+            if isinstance(v, ast.IfExp) and isinstance(v.test, ast.Compare) and len(v.test.ops) == 1 and isinstance(v.test.left, ast.Name) and \
+               v.test.left.id == name and isinstance(v.test.comparators[0], ast.Constant) and v.test.comparators[0].value is None:
+              if isinstance(v.test.ops[0], ast.Is) and isinstance(v.orelse, ast.Name) and v.orelse.id == name:
+                st.value = v.body
+                changed = done = True
+              elif isinstance(v.test.ops[0], ast.IsNot) and isinstance(v.body, ast.Name) and v.body.id == name:
+                st.value = v.orelse
+                changed = done = True
+            elif isinstance(v, ast.BoolOp) and isinstance(v.op, ast.Or) and len(v.values) == 2 and isinstance(v.values[0], ast.Name) and \
+                v.values[0].id == name:
+              st.value = v.values[1]
+              changed = done = True
+          break
+        if not done and len(stores) == 1:
+          # the same guard anywhere in the body, when the assignment under it is the only one: p is still None when it is reached
+          for owner in ast.walk(d):
+            for field in ('body', 'orelse', 'finalbody'):
+              blk = getattr(owner, field, None)
+              if not isinstance(blk, list):
+                continue
+              for i, st in enumerate(blk):
+                if isinstance(st, ast.If) and not st.orelse and isinstance(st.test, ast.Compare) and len(st.test.ops) == 1 and \
+                   isinstance(st.test.ops[0], ast.Is) and isinstance(st.test.left, ast.Name) and st.test.left.id == name and \
+                   isinstance(st.test.comparators[0], ast.Constant) and st.test.comparators[0].value is None and \
+                   len(st.body) == 1 and isinstance(st.body[0], ast.Assign) and any(stores[0] is t for t in st.body[0].targets) and \
+                   not any(isinstance(x, ast.Name) and x.id == name for x in ast.walk(st.body[0].value)):
+                  blk[i] = st.body[0]
+                  changed = done = True
+                  d._bound_params = getattr(d, '_bound_params', set()) | {name}
+        if done:
+          continue
+        if not stores and loads:
+          # never assigned: it IS None
+          for z in ast.walk(d):
+            for fld, val in ast.iter_fields(z):
+              if isinstance(val, ast.Name) and val.id == name and isinstance(val.ctx, ast.Load):
+                setattr(z, fld, ast.copy_location(ast.Constant(value=None), val))
+                changed = True
+              elif isinstance(val, list):
+                for k, v in enumerate(val):
+                  if isinstance(v, ast.Name) and v.id == name and isinstance(v.ctx, ast.Load):
+                    val[k] = ast.copy_location(ast.Constant(value=None), v)
+                    changed = True
+      elif not stores and loads and _pure_constant(default, {'__defs__': set()}):
+        for z in ast.walk(d):
+          if z is a or any(z is dd for dd in a.defaults) or any(z is dd for dd in a.kw_defaults if dd is not None):
+            continue
+          for fld, val in ast.iter_fields(z):
+            if fld in ('defaults', 'kw_defaults'):
+              continue
+            if isinstance(val, ast.Name) and val.id == name and isinstance(val.ctx, ast.Load):
+              setattr(z, fld, ast.copy_location(_clone(default), val))
+              changed = True
+            elif isinstance(val, list):
+              for k, v in enumerate(val):
+                if isinstance(v, ast.Name) and v.id == name and isinstance(v.ctx, ast.Load):
+                  val[k] = ast.copy_location(_clone(default), v)
+                  changed = True
+  if changed:
+    ast.fix_missing_locations(tree)
+  return changed
+
+
+def _setattr_names(call, module):
+  """names a setattr / delattr call can store to: the constant written in place, or - when the name is the variable of an
+  enclosing `for` over a literal tuple of strings (in place or a class-level constant) - those strings; {'*'} otherwise."""
+  a = call.args[1]
+  if isinstance(a, ast.Constant):
+    return {a.value}
+  if isinstance(a, ast.Name):
+    p = getattr(call, '_parent', None)
+    while p is not None:
+      if isinstance(p, ast.For) and isinstance(p.target, ast.Name) and p.target.id == a.id:
+        it = p.iter
+        if isinstance(it, ast.Attribute) and isinstance(it.value, ast.Name) and it.value.id in ('self', 'cls'):
+          q = p
+          while q is not None and not isinstance(q, ast.ClassDef):
+            q = getattr(q, '_parent', None)
+          lits = [s.value for s in (q.body if q is not None else []) if isinstance(s, ast.Assign) and
+                  any(isinstance(t, ast.Name) and t.id == it.attr for t in s.targets)]
+          it = lits[0] if len(lits) == 1 else None
+        if isinstance(it, (ast.Tuple, ast.List)) and all(isinstance(e, ast.Constant) and isinstance(e.value, str) for e in it.elts):
+          return {e.value for e in it.elts}
+        return {'*'}
+      if isinstance(p, (ast.FunctionDef, ast.AsyncFunctionDef, ast.Lambda)):
+        break
+      p = getattr(p, '_parent', None)
+  return {'*'}
+
+
 def _statement_forms(block, taken):
   """two spellings brought to the statement form rules read:
        x = A if c else B   (also `return`, `self.a = ...`)      ->   if c: x = A   else: x = B
@@ -1635,6 +2332,16 @@ def _statement_forms(block, taken):
       a, b = _clone(st), _clone(st)
       a.value, b.value = v.body, v.orelse
       new = ast.If(test=v.test, body=[a], orelse=[b])
+      ast.copy_location(new, st)
+      ast.fix_missing_locations(new)
+      out.append(new)
+      changed = True
+      continue
+    if isinstance(st, ast.Expr) and isinstance(v, ast.Call) and isinstance(v.func, ast.Name) and v.func.id == 'setattr' and \
+       'setattr' not in taken and len(v.args) == 3 and not v.keywords and isinstance(v.args[1], ast.Constant) and \
+       isinstance(v.args[1].value, str) and v.args[1].value.isidentifier() and isinstance(v.args[0], (ast.Name, ast.Attribute)):
+      # setattr(obj, 'name', value) with a constant name is the assignment obj.name = value
+      new = ast.Assign(targets=[ast.Attribute(value=v.args[0], attr=v.args[1].value, ctx=ast.Store())], value=v.args[2])
       ast.copy_location(new, st)
       ast.fix_missing_locations(new)
       out.append(new)
@@ -1709,6 +2416,22 @@ def _expand_dispatch(block, module):
   while i < len(block):
     st = block[i]
     look = None
+    if isinstance(st, (ast.Return, ast.Expr, ast.Assign)) and _bool_table_call(st, module) is not None:
+      # x = TABLE[<test>](args)  with  TABLE = {True: f, False: g}    ->   if <test>: x = f(args) else: x = g(args)
+      call, test, f_true, f_false = _bool_table_call(st, module)
+      arms = []
+      for val in (f_true, f_false):
+        cp = _clone(st)
+        for c in ast.walk(cp):
+          if isinstance(c, ast.Call) and isinstance(c.func, ast.Subscript) and ast.dump(c.func) == ast.dump(call.func):
+            c.func = ast.copy_location(_clone(val), c.func)
+        arms.append(cp)
+      new_if = ast.If(test=_clone(test), body=[arms[0]], orelse=[arms[1]])
+      ast.copy_location(new_if, st)
+      ast.fix_missing_locations(new_if)
+      block[i:i + 1] = [new_if]
+      changed = True
+      continue
     if isinstance(st, ast.Assign) and len(st.targets) == 1 and isinstance(st.targets[0], ast.Name) and i + 1 < len(block) and \
        isinstance(st.value, ast.IfExp) and isinstance(st.value.body, (ast.Name, ast.Attribute)) and \
        isinstance(st.value.orelse, (ast.Name, ast.Attribute)) and _plain_element(st.value.body) and _plain_element(st.value.orelse):
@@ -1770,6 +2493,42 @@ def _expand_dispatch(block, module):
         continue
     i += 1
   return block if changed else None
+
+
+def _bool_table_call(st, module):
+  """(call, test, value for True, value for False) when the statement contains exactly one call TABLE[<test>](...) on a
+  module-level literal dict {True: f, False: g} that is never modified, and nothing else in it has effects of its own"""
+  if module is None:
+    return None
+  hits = []
+  for c in ast.walk(st):
+    if isinstance(c, ast.Call) and isinstance(c.func, ast.Subscript) and isinstance(c.func.value, ast.Name):
+      rows = _dispatch_table_any(module, c.func.value.id)
+      if rows is not None and set(rows) == {True, False}:
+        hits.append((c, c.func.slice, rows[True], rows[False]))
+  if len(hits) != 1 or any(isinstance(x, (ast.Lambda, ast.ListComp, ast.GeneratorExp, ast.DictComp, ast.SetComp, ast.Yield, ast.Await))
+                           for x in ast.walk(st)):
+    return None
+  return hits[0]
+
+
+def _dispatch_table_any(module, name):
+  """{constant key: value ast} of a module-level literal dict bound once and never modified (keys may be booleans)"""
+  vals = module.globals.get(name, [])
+  if len(vals) != 1 or not isinstance(vals[0], ast.Dict):
+    return None
+  d = vals[0]
+  if not d.keys or not all(isinstance(k, ast.Constant) for k in d.keys) or not all(isinstance(v, (ast.Name, ast.Attribute)) for v in d.values):
+    return None
+  for x in ast.walk(module.tree):
+    if isinstance(x, ast.Global) and name in x.names:
+      return None
+    if isinstance(x, ast.Subscript) and isinstance(x.value, ast.Name) and x.value.id == name and isinstance(x.ctx, (ast.Store, ast.Del)):
+      return None
+    if isinstance(x, ast.Call) and isinstance(x.func, ast.Attribute) and isinstance(x.func.value, ast.Name) and x.func.value.id == name and \
+       x.func.attr in ('update', 'pop', 'popitem', 'setdefault', 'clear'):
+      return None
+  return {k.value: v for k, v in zip(d.keys, d.values)}
 
 
 def _table_lookup(e, module):
